@@ -7,7 +7,7 @@ import LlgoVerif.Model.Chan
       op:  s<c>:<v>  r<c>  c<c>  S:b:<cases>  S:n:<cases>     cases: `-` or `,`-separated  s<c>=<v> | r<c>
     step <t> | wake <t>                    one scheduler choice; answers the observable state or `bad-step`
     prio <t>,<t>,… | auto                  `auto` steps the first runnable thread of the priority list
-    state                                  observable state
+    state | dump                           observable state | full model state (diagnostics)
     explore <maxStates> <wakes 0|1>        breadth-first exploration of the model's state graph from the
                                            current state; answers schedules that cover every transition -/
 open LlgoVerif LlgoVerif.Util LlgoVerif.Chan
@@ -164,6 +164,7 @@ def handle (d : D) (line : String) : D × String :=
       | none => (d, "bad-step")
     | none => (d, "stuck " ++ showState d.cur)
   | ["state"] => (d, showState d.cur)
+  | ["dump"] => (d, (toString (repr d.cur)).replace "\n" " ")
   | ["explore", m, w] =>
     match m.toNat? with
     | some m => (d, explore d.cur m (w == "1"))
